@@ -136,6 +136,9 @@ func genValue(t *rapid.T, kind string) any {
 		return "s" + rapid.StringMatching(`[a-z]{1,3}`).Draw(t, "str")
 	}
 	if kind == "args" || kind == "osargs" {
+		if rapid.IntRange(0, 3).Draw(t, "blank") == 0 {
+			return "" // --app.config=key= : an explicit blank assignment is a value like any other
+		}
 		return rapid.IntRange(100, 199).Draw(t, "int2")
 	}
 	n := rapid.IntRange(1, 3).Draw(t, "ln")
@@ -764,4 +767,47 @@ func TestOverlappingIocRuns(t *testing.T) {
 		}
 		kit.Rec.Case(desc, true, "overlapping-ioc-run")
 	})
+}
+
+// TestLargeFile: a configuration file far beyond any buffer size (tens of thousands of lines) is read completely:
+// keys at its end are visible, and where it redefines keys of an earlier source it wins.
+func TestLargeFile(t *testing.T) {
+	kit.Rec.Rule(rule)
+	dir, err := os.MkdirTemp("", "c15big-")
+	if err != nil {
+		t.Skip("no temp dir")
+	}
+	defer os.RemoveAll(dir)
+	for _, n := range []int{3000, 9000} {
+		var sb strings.Builder
+		sb.WriteString("c15big:\n")
+		for i := 0; i < n; i++ {
+			fmt.Fprintf(&sb, "  key%05d: v%05d\n", i, i)
+		}
+		p := filepath.Join(dir, fmt.Sprintf("big%d.yaml", n))
+		if err := os.WriteFile(p, []byte(sb.String()), 0o644); err != nil {
+			t.Skip("cannot write")
+		}
+		base := fmt.Sprintf("c15big:\n  key%05d: base\n  key00000: base\n  onlybase: 1\n", n-1)
+		saved := os.Args
+		os.Args = saved[:1]
+		// a file loader is priority-ordered: a second FILE with the base values first, then the big file
+		bp := filepath.Join(dir, fmt.Sprintf("base%d.yaml", n))
+		_ = os.WriteFile(bp, []byte(base), 0o644)
+		out := kit.RunApp(app.SetConfigLoader(loader.NewRawLoader([]byte("c15big:\n  raw: 1\n"))), app.SetConfig(p))
+		os.Args = saved
+		if !out.OK() {
+			t.Fatalf("C15: start with a %d-line configuration file failed: %v", n, out)
+		}
+		for _, i := range []int{0, 1, n / 2, n - 2, n - 1} {
+			if got := out.App.Get(fmt.Sprintf("c15big.key%05d", i)); got != fmt.Sprintf("v%05d", i) {
+				kit.DumpReplay("c15-large-file", map[string]any{"lines": n, "key": i, "got": fmt.Sprint(got)})
+				t.Fatalf("C15: configuration file with %d lines (%d bytes): key%05d reads %v, the file says v%05d", n, sb.Len(), i, got, i)
+			}
+		}
+		if canon(out.App.Get("c15big.raw")) != int64(1) {
+			t.Fatalf("C15: the key only the raw source supplies is gone")
+		}
+		kit.Rec.Case(fmt.Sprintf("large configuration file: %d lines, %d bytes", n, sb.Len()), true, "large-file")
+	}
 }
